@@ -27,6 +27,9 @@ type KnownFinding struct {
 	Status   string `json:"status"` // open | fixed
 	Commit   string `json:"commit,omitempty"`
 	What     string `json:"what"`
+	// Obligations restricts the finding to failures of these obligations (a trailing *
+	// matches any suffix); empty = any obligation of the property's harnesses.
+	Obligations []string `json:"obligations,omitempty"`
 }
 
 type KnownFile struct {
@@ -230,6 +233,10 @@ func cmdCheck(id, tier string) int {
 			w := NewWorld(ld.pi, b)
 			w.seed = seed
 			w.shard, w.nshards = h.shard, h.shards
+			w.findObl = map[string][]string{}
+			for fid := range open {
+				w.findObl[fid] = known[fid].Obligations
+			}
 			pkg := dirPkg[h.dir]
 			results[i] = w.Explore(Harness{Pkg: pkg, Func: h.fn}, open)
 			fmt.Fprintf(os.Stderr, "[%s] %s: paths=%d queries=%d wall=%v\n", id, h.fn, results[i].Paths, results[i].Solver.Queries, results[i].Wall.Round(1e7))
